@@ -243,6 +243,10 @@ def run_unit(unit_name, extra_args=(), keep=True, inject=None, inject_false=None
             r'postcondition not satisfied|precondition not satisfied|assertion failed|invariant not satisfied|'
             r'possible arithmetic underflow/overflow|possible division by zero|index out of bounds|'
             r'unreachable|cannot show|might not be allowed|failed|possible|unable to prove|cannot prove|could not prove|not satisfied|decreases not satisfied', msg, re.I)) and not UNDECIDED_PAT.search(msg)
+        # a diagnostic that carries a rustc error code (E0277 "the trait bound .. is not satisfied", E0308, ..) is a COMPILE error:
+        # Verus never reached the solver for this unit; it is never a verification failure, whatever words its message contains
+        if ((e.get('code') or {}).get('code') or '').startswith('E'):
+            verification_failure = False
         if not verification_failure:
             undecided_regions.add(rec['region'])
             undecided.append(f'{msg} (gen line {pline}, region {rec["region"]})')
@@ -272,6 +276,13 @@ def run_unit(unit_name, extra_args=(), keep=True, inject=None, inject_false=None
         res['errors'].append(rec)
     if undecided and vr.get('verified', 0) == 0 and vr.get('errors', 0) == 0:
         hard_fail = True   # rustc / VIR error: Verus never reached the solver
+    if vr.get('encountered-error') and vr.get('verified', 0) == 0 and vr.get('errors', 0) == 0:
+        # safety net: Verus reports an error but neither a verified nor a failed function: nothing was verified, so nothing may count
+        # as discharged and nothing as a verification failure
+        hard_fail = True
+        for o_, msgs_ in failed.items():
+            undecided.append(f'{o_}: diagnostic without any verification result (compile error?): {msgs_[0][:300]}')
+        failed = {}
     res['hard_fail'] = bool(hard_fail and not failed)
     if hard_fail and not failed:
         res['status'] = 'undecided'
